@@ -92,6 +92,11 @@ func Get() *Env {
 	if err := ctl.VerifQueueIndexer().Add(q); err != nil {
 		panic(err)
 	}
+	for k := int64(1); k <= 4; k++ {
+		if err := ctl.VerifPriorityClassIndexer().Add(NewPriorityClass(fmt.Sprintf("pc%d", k), int32(k*10))); err != nil {
+			panic(err)
+		}
+	}
 	theEnv = e
 	return e
 }
